@@ -368,6 +368,7 @@ This decides `no new unaudited panic/recursion/loop site`, the enumerated necess
     // ---------------- loops (syntactic) ----------------
     loops(m, ctx);
     withdraw(m, ctx);
+    dead_guard(m, ctx);
     acyclic(m, ctx);
     slice_totality(m, ctx);
     minmax_guard(m, ctx);
@@ -930,6 +931,49 @@ fn acyclic(m: &Model, ctx: &mut Ctx) {
             Err(e) if e.contains("did not terminate") => ctx.violate("C08.acyclic", &format!("removal-hangs:{}", what.replace(' ', "-")), &f.file, f.line,
                 &format!("remove_circular_type_references on the scenario `{}` is still looping after 200 rounds over at most five definitions: the chain of references is followed without remembering where it has been, so this input hangs the compiler", what)),
             Err(e) => ctx.fail_closed("C08.acyclic", &format!("[{}]: {}", what, e)),
+        }
+    }
+}
+
+/// C08.deadguard: two subtraction sites of `resolve_elsewhere_with_parent` (`tokens.get(i - 1)`, `c.get(i - 1)` with i = 0)
+/// are audited as unreachable, not as safe: the lexer records the parent of `object.&field` together with the `.&`
+/// (`recognize(many1(pair(identifier, tag(".&"))))`), and the function's first act is to refuse every parent that contains
+/// a dot. The function is evaluated on references as the lexer builds them: it must answer with an error before it looks
+/// anything up — if it gets past that point, the code the audit calls unreachable is reachable.
+fn dead_guard(m: &Model, ctx: &mut Ctx) {
+    use crate::eval::{Env, Evaluator, Val};
+    let rule = "C08.deadguard";
+    let Some(f) = m.fns.iter().find(|f| f.name == "resolve_elsewhere_with_parent" && f.self_ty.as_deref() == Some("ASN1Value")) else {
+        // the function (and with it the audited sites) is gone: nothing to guard
+        return;
+    };
+    ctx.func(&f.key);
+    // the subtraction sites the argument is about
+    let body = tok(&f.block);
+    let sites = body.matches("i-1").count();
+    ctx.oblige(rule, "guarded-sites", true);
+    if sites == 0 {
+        return;
+    }
+    let consts = crate::rules::util::const_resolver(m);
+    let ev = Evaluator { consts: &consts, call_hook: &crate::eval::no_hook, inline: None };
+    let param = f.sig.inputs.iter().filter_map(|a| match a { syn::FnArg::Typed(t) => Some(tok(&t.pat)), _ => None }).next().unwrap_or("tlds".into());
+    for parent in ["o.&", "outer.&inner.&"] {
+        ctx.oblige(rule, &format!("parent:{}", parent), true);
+        let mut fields = std::collections::BTreeMap::new();
+        fields.insert("module".to_string(), Val::none());
+        fields.insert("parent".to_string(), Val::some(Val::Str(parent.into())));
+        fields.insert("identifier".to_string(), Val::Str("max".into()));
+        let mut env = Env::new();
+        env.insert("self".into(), Val::Ctor("ElsewhereDeclaredValue".into(), vec![], fields));
+        env.insert(param.clone(), Val::Opaque("tlds".into()));
+        match ev.eval_fn_body(&f.block, &mut env) {
+            Ok(Val::Ctor(e, _, _)) if e == "Err" => {}
+            other => {
+                let what = match other { Ok(v) => format!("it returns {}", v.show().chars().take(60).collect::<String>()), Err(e) => format!("evaluation goes on to `{}`", e.chars().take(90).collect::<String>()) };
+                ctx.violate(rule, "guard-open", &f.file, f.line,
+                    &format!("resolve_elsewhere_with_parent no longer refuses the reference `{}max` (parent recorded by the lexer as {:?}) up front: {} — the lookups behind the guard become reachable, among them `c.get(i - 1)` / `tokens.get(i - 1)` with i = 0 ({} site(s)), audited as *unreachable*, which underflow (panic with overflow checks) when the referenced value is the first token of a custom syntax", parent, parent, what, sites));
+            }
         }
     }
 }
